@@ -585,6 +585,12 @@ class Extractor:
             a.iterating = f.attr == 'iter_unpack'    # type: ignore[attr-defined]
             return a
         if isinstance(f, ast.Attribute) and f.attr == 'defer' and len(c.args) >= 2:
+            # DeferredWrites.defer(key, fmt, write=False): only `write=True` occupies space in the file here
+            wr = c.args[2] if len(c.args) > 2 else next((k.value for k in c.keywords if k.arg == 'write'), None)
+            if not (isinstance(wr, ast.Constant) and wr.value is True):
+                if wr is None or (isinstance(wr, ast.Constant) and wr.value is False):
+                    return None
+                raise AnalysisError(f'{self.mod.relpath}:{c.lineno}: defer(..., write=<non-constant>)')
             v, star, ident = self.fmt_of(c.args[1], fn)
             return Atom('w', v, c, None, star, ident)
         # inlined helpers
